@@ -63,6 +63,7 @@ class CFG:
         self._tries: List[Dict] = []
         body = fn.body if not isinstance(fn, ast.Lambda) else []
         ends = self._seq(body, [self.entry])
+        self._fall_ends = list(ends)
         for e in ends:
             self._edge(e, self.exit)
         self._dom: Optional[Dict[int, Set[int]]] = None
@@ -262,7 +263,9 @@ class CFG:
         if fin is not None:
             for e in ends:
                 self._edge(e, fin)
-            info["finally_targets"].add("fall")
+            if ends:
+                # the statement after the try is reached only if the body / else / a handler completes normally
+                info["finally_targets"].add("fall")
             f_ends = self._seq(st.finalbody, [fin])
             self._tries.pop()
             out: List[Node] = []
@@ -288,6 +291,11 @@ class CFG:
         if not normal:
             return [], []
         return [normal[0]], normal[1:]
+
+    def falls_off_end(self) -> bool:
+        """can control reach the end of the body without a return / raise?"""
+        reach = self.reachable_from(self.entry)
+        return any(e.idx in reach for e in self._fall_ends)
 
     def node_of(self, st: ast.AST) -> Node:
         try:
